@@ -13,6 +13,7 @@ F_SKI = "C11-stale-shardkey-across-groups"
 F_HINT = "C11-hint-query-ignores-shardkey"
 BB_SHARDKEYS = {"cpu": ["host"], "mem": ["region"], "net": ["dc", "host"], "disk": []}   # as created by cmd/c11bb
 F_HINT_RANGE = "C11-hint-query-hashes-range-sharded"
+F_ALIVE = "C11-alive-set-change-skips-online-shard"
 NV = 64
 FULL = (1 << NV) - 1
 
@@ -94,9 +95,10 @@ def ccase(c):
     ct = "None" if c["condtags"] is None else "(Some %s)" % coq_list([ctags(ts) for ts in c["condtags"]])
     rs = c.get("reshard")
     resh = "(Some (%s, %s))" % (coq_z(rs["split"]), coq_list([cstr(b) for b in rs["bounds"]])) if rs and rs.get("done") else "None"
-    return ("(let gs := %s in {| cc_msts := %s; cc_qm := %d%%nat; cc_born := %s; cc_reshard := %s; cc_cond := %s; cc_points := %s; "
+    return ("(let gs := %s in {| cc_msts := %s; cc_qm := %d%%nat; cc_born := %s; cc_walive := %s; cc_reshard := %s; cc_cond := %s; cc_points := %s; "
             "cc_condtags := %s; cc_tmin := %s; cc_tmax := %s; cc_qgroups := %s; cc_targets := %s; cc_hints := " + chints(c) + " |})") % (
-        coq_list([cgroup(g) for g in groups]), coq_list(msts), c["qm"], coq_list([coq_z(2 * g["born"] - 1 if g.get("resh") else 2 * g["born"]) for g in groups]), resh,
+        coq_list([cgroup(g) for g in groups]), coq_list(msts), c["qm"], coq_list([coq_z(2 * g["born"] - 1 if g.get("resh") else 2 * g["born"]) for g in groups]),
+        coq_list([cnat_list(g.get("walive") or []) for g in groups]), resh,
         "(Some %s)" % cexpr(c["cond"]) if c["hascond"] else "None",
         coq_list(pts), ct, coq_z(c["tmin"]), coq_z(c["tmax"]), coq_list(["%d%%N" % x for x in c["qgroups"]]),
         coq_list(["(%d%%N, %s)" % (t["gid"], coq_list(["%d%%N" % s for s in t["sids"]])) for t in c["targets"]]))
@@ -418,7 +420,7 @@ def main(ck):
     # ---- direct oracle on the implementation
     nontriv = set()
     hist = {"label": {}, "typ": {}, "nsk": {}, "ptnum": {}, "dur": {}, "measurements": {}, "batches": {},
-            "measurement_switches_inside_batches": {}, "alter_shardkey": {}, "db_shardkey": {}, "resharding": {}, "point_err": {}, "split": 0, "nocond": 0}
+            "measurement_switches_inside_batches": {}, "alter_shardkey": {}, "db_shardkey": {}, "resharding": {}, "partition_status": {}, "point_err": {}, "split": 0, "nocond": 0}
     sat_routed = 0
     known_hits = {}
     latent = 0
@@ -435,6 +437,10 @@ def main(ck):
         for k, v in (("label", c["label"]), ("typ", cf["typ"]), ("nsk", len(cf["msts"][c["qm"]]["sk"] or [])), ("ptnum", cf["ptnum"]),
                      ("dur", cf["dur"]), ("measurements", len(cf["msts"])), ("batches", nb),
                      ("measurement_switches_inside_batches", min(mixed, 5)), ("alter_shardkey", c["alter"] is not None),
+                     ("partition_status", ("hard-write, " if cf.get("hardwrite") else "") + (
+                         "all online" if not cf.get("offline") and not cf.get("offline_read") else
+                         "same partition offline at write and query" if cf.get("offline_read") is None or set(cf["offline_read"]) == set(cf.get("offline") or []) else
+                         "changed between write and query")),
                      ("resharding", "none" if not c.get("reshard") else ("done" if c["reshard"].get("done") else "skipped")),
                      ("db_shardkey", "none" if not cf.get("dbsk") else
                       ("db+mst" if (cf["msts"][c["qm"]]["sk"] or []) else "db only"))):
@@ -458,6 +464,22 @@ def main(ck):
                     known_hits[F_DROP] = known_hits.get(F_DROP, 0) + 1
                     if known_hits[F_DROP] == 1:
                         ck.known_finding(F_DROP, "a row is hashed by the shard key of ANOTHER measurement of its write batch: %s" % msg[9:])
+                    continue
+            if msg.startswith("prune: point ") or msg.startswith("hintprune: hint "):
+                # signature of C11-alive-set-change-skips-online-shard: hash sharding in force, no shard list of the measurement's
+                # own, and the alive index list of the row's group changed between the write and the query (the harness only
+                # reports rows whose shard is online when the query runs)
+                pi = int(msg.split()[2] if msg.startswith("prune") else msg.split()[4])
+                p = c["points"][pi]
+                g = [x for x in c["groups"] if x["id"] == p["gid"]]
+                qmst = cf["msts"][c["qm"]]
+                if ((cf["typ"] == "hash" or cf.get("dbsk")) and not qmst.get("initnum") and g
+                        and (g[0].get("walive") or []) != (g[0].get("alive") or []) and ck.match_finding(F_ALIVE)):
+                    known_hits[F_ALIVE] = known_hits.get(F_ALIVE, 0) + 1
+                    if known_hits[F_ALIVE] == 1:
+                        ck.known_finding(F_ALIVE, "the alive shard list changed between write and query and an ONLINE shard holding a "
+                                         "matching row is skipped: %s | cond: %s | alive at write %s, at query %s, hard-write %s" % (
+                                             msg.split(": ", 1)[1], c["condtext"], g[0].get("walive"), g[0].get("alive"), cf.get("hardwrite")))
                     continue
             if msg.startswith("hintprune: hint "):
                 # signature of C11-hint-query-hashes-range-sharded: hinted query, range sharding in force (no database key),
